@@ -26,3 +26,4 @@ PROP = {'engine': 'stack',
  'level_note': "the runtime identity string (user agent) is not observable through the emulator's interfaces and is not compared; pause points "
                'reset.beforeServerClear / reinit.betweenClears are not used (nothing outside the emulator can act between them)',
  'technique': 'property-based testing (rapid): differential / metamorphic relation between two whole executions, hook-ordered late notification'}
+PROP['rule'] += ' Round-4 addition: prefix kind initerr.idle (first item only): the first initialisation fails with a reported init error and the environment is reset from outside before any invocation arrived (nothing reserved).'
